@@ -106,7 +106,7 @@ Definition gz_idemb (n : nat) (D : Z) (P : list (list gz)) : bool :=
   let PP := mm gz gz0 gzadd gzmul n P P in
   all2n n (fun i j => gz_eqb (gz_entry PP i j) (gzmul (D, 0) (gz_entry P i j))).
 Definition gz_projb (n : nat) (D : Z) (P : list (list gz)) : bool :=
-  wf_shape gz n P [] [] || (Nat.eqb (length P) n && forallb (fun r => Nat.eqb (length r) n) P)
+  Nat.eqb (length P) n && forallb (fun r => Nat.eqb (length r) n) P
   && gz_hermb n P && gz_idemb n D P.
 
 (* chern_number.py:22-24  theta = [positions < crosshair]  — STRICT comparison.
